@@ -307,6 +307,7 @@ def run(ctx):
         msg = "cache consulted for the function's own crate: %s; source lowering only when the crate has no cache: %s" % (own, none_only)
     ctx.ob("R20.4", "priv_function_with_body_multi_lowering:cache-before-source", ok, msg, pml.where())
     _interning_tables(ctx, F)
+    _cache_validity(ctx, F)
     _controls(ctx, F, cached, methods)
 
 
@@ -441,3 +442,123 @@ def _controls(ctx, F, cached, methods):
             if n == "droppable" and "f:droppable" not in op_prov(f, o, 14):
                 bad = True
     ctx.control("droppable/destruct_impl swapped on load", bad)
+
+
+def _cache_validity(ctx, F):
+    """R20.6: a crate cache is used only if *every* recorded piece of metadata equals that of the loading compilation.
+
+    `CachedCrateMetadata` records what the cached phases depend on besides the sources (compiler version, crate
+    settings, global flags).  The validity test is a hand-written equality over that struct: for each field there must be
+    a comparison of the field of the freshly computed metadata with the same field of the stored one - the fields
+    themselves, not a projection of them through workspace code (a filtered flag set compares less than was recorded) -
+    whose mismatch edge ends in the refusal (a diverging call)."""
+    from .lib import place_proj
+    from .guards import bool_edge_value
+    meta = [p for p in F.adts if p.endswith("::CachedCrateMetadata")]
+    ctx.ob("R20.6", "metadata-type", len(meta) == 1, "one CachedCrateMetadata type (%s)" % meta, "")
+    if len(meta) != 1:
+        return
+    M = meta[0]
+    fields = [fn_ for v in F.adts[M]["variants"] for fn_, _ in v["fields"]]
+    validators = []
+    for p, f in F.fns.items():
+        if not f.body or f.kind == "Closure":
+            continue
+        if not any(M in (f.local_ty(i) or "") and (f.local_ty(i) or "").startswith("&") for i in range(1, f.argc + 1)):
+            continue
+        news = [c for c in f.calls() if c.path.startswith(M + "::") and c.name() == "new"]
+        if news:
+            validators.append((f, news))
+    ctx.ob("R20.6", "validator-found", len(validators) >= 1, "%d routine(s) compare a stored CachedCrateMetadata with a freshly computed one: %s" % (
+        len(validators), [last_seg(f.path) for f, _ in validators]), "")
+
+    def direct_field(f, op, depth=0):
+        """(base local, field) if the operand is (a reference to) a field of a local, reached through copies / re-borrows only"""
+        pl = op_place(op)
+        if pl is None or depth > 6:
+            return None
+        names = [e for e in place_proj(pl) if isinstance(e, list) and e[0] == "f"]
+        if names:
+            last = names[-1]
+            if str(last[2]).isdigit() or last[2] is None:
+                # a component of a local tuple: `let (a, b) = (&x.f, &y.f);`
+                d = f.single_def(place_local(pl))
+                if d and d[0] == "stmt" and d[3][0] == "agg" and d[3][1] == "tuple" and len(names) == 1:
+                    idx = last[1]
+                    if isinstance(idx, int) and idx < len(d[3][3]):
+                        return direct_field(f, d[3][3][idx], depth + 1)
+                return None
+            return (place_local(pl), last[2])
+        d = f.single_def(place_local(pl))
+        if d and d[0] == "stmt":
+            rv = d[3]
+            if rv[0] == "ref":
+                return direct_field(f, ["c", rv[1]], depth + 1)
+            if rv[0] in ("use", "cast"):
+                return direct_field(f, rv[1] if rv[0] == "use" else rv[2], depth + 1)
+        return None
+    for f, news in validators:
+        ctx.analysed(f)
+        fresh = {place_local(c.dest) for c in news}
+        params = {i for i in range(1, f.argc + 1) if M in (f.local_ty(i) or "")}
+        compared = {}
+        for c in f.calls():
+            if len(c.args) != 2 or c.name() not in ("eq", "ne", "eq_unordered", "cmp", "partial_cmp"):
+                continue
+            a, b = direct_field(f, c.args[0]), direct_field(f, c.args[1])
+            if not a or not b or a[1] != b[1]:
+                continue
+            bases = {a[0], b[0]}
+            def root(l):
+                # a parameter reference is dereferenced through a copy
+                d = f.single_def(l)
+                while d and d[0] == "stmt" and d[3][0] in ("use", "ref") and l not in params and l not in fresh:
+                    pl = op_place(d[3][1]) if d[3][0] == "use" else d[3][1]
+                    if pl is None:
+                        break
+                    l = place_local(pl)
+                    d = f.single_def(l)
+                return l
+            roots = {root(x) for x in bases}
+            if not (roots & fresh and roots & params):
+                continue
+            # the mismatch edge refuses: one successor of the switch on the result diverges
+            sw = [bb for bb, t in f.switches() if (bool_condition(f, bb)[0] or (None,))[0] == "call" and bool_condition(f, bb)[0][1].bb == c.bb]
+            refuses = False
+            for bb in sw:
+                for s_ in f.succ(bb):
+                    seen, todo = set(), [s_]
+                    while todo:
+                        x = todo.pop()
+                        if x in seen or len(seen) > 6:
+                            continue
+                        seen.add(x)
+                        t = f.blocks[x]["t"]
+                        if t[0] == "call" and t[4] is None:
+                            refuses = True
+                        elif t[0] in ("call", "goto"):
+                            todo.extend(f.succ(x))
+            compared[a[1]] = (c, refuses)
+        # ... or the two records are compared as a whole by a derived (complete) equality
+        for c in f.calls():
+            if len(c.args) != 2 or c.name() not in ("eq", "ne"):
+                continue
+            ls = [op_local(x) for x in c.args]
+            if None in ls or any(direct_field(f, x) for x in c.args):
+                continue
+            tys = [(f.local_ty(l) or "").lstrip("&").strip() for l in ls]
+            if not all(t.startswith(M) for t in tys):
+                continue
+            derived = any(g.d.get("derived") for q, g in F.fns.items() if q.startswith("<" + M) and "PartialEq" in q and g.name in ("eq", "ne"))
+            if derived:
+                for fld in fields:
+                    compared.setdefault(fld, (c, True))
+        for fld in fields:
+            c, refuses = compared.get(fld, (None, False))
+            ctx.ob("R20.6", "%s:%s" % (last_seg(f.path), fld), c is not None and refuses,
+                   "the stored `%s` is compared with the freshly computed one, field against field, and a mismatch is refused" % fld if c is not None and refuses else
+                   ("no comparison of the field `%s` of the stored metadata with the same field of the freshly computed metadata was found (the fields "
+                    "themselves, not something computed from them): the cache is accepted under metadata it was not produced with" % fld if c is None else
+                    "the comparison of `%s` does not lead to a refusal" % fld), (c.where() if c else f.where()))
+        callers = [c for c in F.callers_of(f.path)]
+        ctx.ob("R20.6", "%s:called" % last_seg(f.path), len(callers) >= 1, "called from %s" % sorted(set(last_seg(c.fn.root) for c in callers)), f.where())
